@@ -330,7 +330,7 @@ func C09(c *mon.Ctx) {
 	// random policies
 	c.ParFor("random", c.N(30000, 400000), func(w *mon.W, i int) {
 		r := w.Rand()
-		mp := gen.RandPolicy(r, gen.ExprCfg{PIll: 0.08, SafeDT: true, WellFormedExt: i%4 != 0}, 4)
+		mp := gen.RandPolicy(r, gen.ExprCfg{PIll: 0.08, SafeDT: true, WellFormedExt: true}, 4)
 		check(w, r, mp, i)
 	})
 	// policy sets: ids preserved
